@@ -1090,11 +1090,11 @@ func TestVerifC16(t *testing.T) {
 		"self_check": fmt.Sprintf("%d operators evaluated twice in sequence and once in isolation (after two GC cycles) with identical observations", selfCheckOps),
 	})
 	rep.Set("object_provenance", map[string]any{
-		"operators_on_decoded_objects": "the core operators (thorough: all except status vectors) applied in place to the object returned by UnmarshalBinary(MarshalBinary(honest)) and to a shallow struct copy of it (parts replaced by fresh deep copies first); all rules, plus: the header decoded from MarshalBinary() of the mutated object equals it field by field",
-		"cases":                        provCases,
-		"refill_cases":                 refillCases,
-		"refill":                       "for neighbouring honest A != B: UnmarshalBinary(A) then UnmarshalJSON(B) into the same object, and UnmarshalJSON(A) then UnmarshalBinary(B): MarshalBinary, Hash and Height afterwards are B's",
-		"refill_validate_differs_from_B (observation, not judged)": refillValidateDiffers,
+		"operators_on_decoded_objects":        "the core operators (thorough: all except status vectors) applied in place to the object returned by UnmarshalBinary(MarshalBinary(honest)) and to a shallow struct copy of it (parts replaced by fresh deep copies first); all rules, plus: the header decoded from MarshalBinary() of the mutated object equals it field by field",
+		"cases":                               provCases,
+		"refill_cases":                        refillCases,
+		"refill":                              "UnmarshalBinary(A) then UnmarshalJSON(B) into the same object, and UnmarshalJSON(A) then UnmarshalBinary(B), for B an honest neighbour of A or A with one field changed (" + strings.Join(refillMutations, ", ") + "): Validate verdict, Hash, Height, every field and MarshalBinary of the object equal those of B's encoding decoded into a fresh object",
+		"refill_outcomes_of_the_fresh_decode": refillOutcomes,
 	})
 	rep.Set("wire_encodings", map[string]any{
 		"extras_per_header": wireExtras,
